@@ -464,6 +464,19 @@ Varable failures: {var_failed}
         outf.updatemeta()
         return outf
 
+    def renameVariables(self, *args, **kwds):
+        """
+        Wrapper PseudoNetCDFFile.renameVariables that updates VAR-LIST, NVARS
+        and TFLAG according to the ioapi format
+
+        Parameters
+        ----------
+        see PseudoNetCDFFile.renameVariables
+        """
+        outf = PseudoNetCDFFile.renameVariables(self, *args, **kwds)
+        outf.updatemeta()
+        return outf
+
     def sliceDimensions(self, *args, **kwds):
         """
         Wrapper PseudoNetCDFFile.sliceDimensions that corrects ROW, COL,
